@@ -315,6 +315,28 @@ RULES["C04"] = ("bodies whose occurrences can overlap or abut x every amount cla
 def c04(ctx):
     ctx.technique = "Window(FindAll(all B), amount) from spec/Semantics.tla replayed into find and replace commands"
     cases = ctx.gen_cases("C04")
+    quick = ctx.tier == "quick"
+    # the scan counters of the engine model: the queue is the window (also with the historical restart-after-skip switch)
+    finds = [c for c in cases if c["cmds"][0]["kind"] == "find"]
+    sample = finds[::4] if quick else finds
+    mc_vm(ctx, "windows", cap_texts(sample, hi_cap=4 if quick else 5),
+          what="VM scan counters: out = Window(FindAll(all B), amount) for every amount clause (RefinesSemantics), MatchWF")
+    skips = [c for c in cases if c["cmds"][0]["kind"] == "find" and c["cmds"][0]["amt"]["k"] in ("skip", "skiptake")]
+    mc_vm(ctx, "sens-SkipAdvancesOneByte", cap_texts(skips[::3], hi_cap=4), dev=["SkipAdvancesOneByte"], expect="RefinesSemantics")
+    if not quick:
+        # the counter arithmetic for unbounded numbers of matches and amounts, by proof
+        d = ctx.scratch.sub("tlaps")
+        import shutil
+        shutil.copy(os.path.join(vlib.SPEC, "ScanProof.tla"), d)
+        try:
+            p = subprocess.run(["tlapm", "--threads", "8", "ScanProof.tla"], cwd=d, capture_output=True, text=True, timeout=900)
+        except subprocess.TimeoutExpired:
+            raise Undecided("tlapm timed out")
+        m = re.search(r"All (\d+) obligations proved", p.stdout + p.stderr)
+        ctx.mc_jobs.append({"job": "TLAPS:ScanProof", "ok": bool(m), "obligations_proved": int(m.group(1)) if m else 0,
+                            "what": "Spec => [](Inv /\\ WindowOf): the kept range of match numbers is the window of the amount clause, for every M, skip, take, last"})
+        if not m:
+            raise Undecided("tlapm did not prove ScanProof:\n" + (p.stdout + p.stderr)[-1500:])
     ctx.replay("C04-windows", cases, FIELDS["C04"])
 
 
@@ -364,6 +386,8 @@ def mc_vm(ctx, name, cases, dev=(), expect=None, max_steps=5000, workers=None, t
     tp = re.search(r"Error: Temporal properties were violated", out)
     found = m.group(1) if m else ("Terminates" if tp else None)
     if expect is None:
+        if st["ok"] and st["distinct"] == 0:
+            raise Undecided("VM model checking job %s explored no state (empty case list?)" % name)
         if found or not st["ok"]:
             raise Undecided("model checking of spec/VM.tla failed (%s): the specification family is inconsistent:\n%s"
                             % (found, vlib.tlc_error_excerpt(out, 60)))
@@ -735,8 +759,8 @@ def c10(ctx):
     ctx.nontrivial = nontriv
     ctx.diagnostics["max_model_steps"] = max(r["steps"] for e in exps for r in e["r"])
     # sensitivity: without the zero-width guard the model spins
-    sens = [c for c in cases if c["id"] % 40 == 0]
-    mc_vm(ctx, "sens-NoZeroWidthGuard", cap_texts(sens, hi_cap=2), dev=["NoZeroWidthGuard"], expect="StepBound", max_steps=3000,
+    sens = [c for c in cases if c["id"] % 60 == 0]
+    mc_vm(ctx, "sens-NoZeroWidthGuard", cap_texts(sens, hi_cap=2), dev=["NoZeroWidthGuard"], expect="StepBound", max_steps=500,
           invariants=("StepBound",))
     if not quick:
         live = [c for c in cases if c["id"] % 4 == 0]
@@ -818,6 +842,20 @@ def c07(ctx):
                                 "what": "inductive invariant of the re-centring arithmetic, B=H=4096, N<=100000"})
             if not ok:
                 raise Undecided("Apalache did not discharge ReaderInd (%s):\n%s" % (name, p.stdout[-1500:]))
+    if not quick:
+        # the same invariant for EVERY file size, by proof (TLAPS, SMT back end)
+        d = ctx.scratch.sub("tlaps")
+        import shutil
+        shutil.copy(os.path.join(vlib.SPEC, "ReaderProof.tla"), d)
+        try:
+            p = subprocess.run(["tlapm", "--threads", "8", "ReaderProof.tla"], cwd=d, capture_output=True, text=True, timeout=900)
+        except subprocess.TimeoutExpired:
+            raise Undecided("tlapm timed out")
+        m = re.search(r"All (\d+) obligations proved", p.stdout + p.stderr)
+        ctx.mc_jobs.append({"job": "TLAPS:ReaderProof", "ok": bool(m), "obligations_proved": int(m.group(1)) if m else 0,
+                            "what": "Spec => []IndInv and SeekCovers for every file size N (B = H = 4096)"})
+        if not m:
+            raise Undecided("tlapm did not prove ReaderProof:\n" + (p.stdout + p.stderr)[-1500:])
     # (ii) recorded histories
     d = ctx.scratch.sub("rt")
     with open(os.path.join(d, "plan.json"), "w") as f:
